@@ -75,3 +75,18 @@ PROPS["C19"] = dict(
     outside="magnitudes longer than 3 digits",
     trusted=STUBS_ADDSUB,
 )
+
+PROPS["C07"] = dict(
+    inject=[("src/bigint/bits.rs", "c07/bigint_bits.rs"), ("src/biguint/shift.rs", "c07/biguint_shift.rs"),
+            ("src/bigint/shift.rs", "c07/bigint_shift.rs"), ("src/bigint.rs", "c07/bit_queries.rs"),
+            ("src/biguint/bits.rs", "c07/biguint_bits.rs")],
+    kani=[dict(filter_q="c07_q_", filter_t=["c07_q_", "c07_t_"], jobs=14, timeout_q=200, timeout_t=900)],
+    functions=["BitAnd/BitOr/BitXor(+Assign) for BigInt (bitand_pos_neg, ... bitxor_neg_neg, negate_carry)", "Not for BigInt",
+               "BitAnd/BitOr/BitXor for BigUint", "biguint_shl/shl2/shr/shr2", "Shl/Shr/ShrAssign for BigInt, shr_round_down",
+               "bit/set_bit/bits/trailing_zeros/trailing_ones/count_ones", "BigInt::bit/set_bit (set_negative_bit)"],
+    bounds_quick="& | ^: nine sign pairs x shapes {1,2}x{1,2} digits (3x3 thorough) x {ref-ref, assign} forms; ! on 0..2 digits; shifts: values 0..3 digits, "
+                 "word shift concrete 0..3, bit shift symbolic 0..63; amount decomposition for all 12 shift types over the whole type; bit queries 0..2 digits "
+                 "with a symbolic index; set_bit at concrete indices {0,1,63,64,65,127,128,...} on symbolic values; every digit symbolic",
+    outside="operands longer than 3 digits",
+    trusted=STUBS_ADDSUB + ["stub: Vec::shrink_to_fit -> no-op (capacity is unobservable)"],
+)
